@@ -4,6 +4,7 @@ import (
 	"encoding/json"
 	"io"
 	"net"
+	"reflect"
 	"sync"
 	"time"
 
@@ -53,6 +54,8 @@ type hsObs struct {
 	Cer            cerContent `json:"cer"`
 }
 type hsLine struct {
+	Events  []cnEvent  `json:"events"`
+	Conform bool       `json:"conform"`
 	Ev     string     `json:"ev"`
 	ID     int        `json:"id"`
 	Script hsScript   `json:"script"`
@@ -217,6 +220,16 @@ func runHandshake(id int, sc *hsScript, configured bool) hsLine {
 		pc.Close()
 	}
 	mc := memnet.NewConn()
+	lg := &evlog{}
+	logsByConn.Store(reflect.ValueOf(mc).Pointer(), lg)
+	defer logsByConn.Delete(reflect.ValueOf(mc).Pointer())
+	l.Conform = sc.Kind != "eof" // the model has no peer disconnect
+	peerKind := func(kind string) string {
+		if kind == "ok" {
+			return "ok"
+		}
+		return "fail"
+	}
 	if sc.Stall > 0 {
 		mc.OnWrite = func(k int, b []byte) memnet.WriteOutcome {
 			time.Sleep(time.Duration(sc.Stall) * time.Millisecond) // the transport is slow to accept the bytes
@@ -247,6 +260,7 @@ func runHandshake(id int, sc *hsScript, configured bool) hsLine {
 					if sc.Kind == "eof" {
 						mc.FeedErr(io.EOF)
 					} else {
+						lg.add(cnEvent{Ev: "peer", K: peerKind(sc.Kind)})
 						mc.Feed(ceaFor(sc.Kind, &msgs[sc.At-1]))
 					}
 				}
@@ -273,11 +287,13 @@ func runHandshake(id int, sc *hsScript, configured bool) hsLine {
 		for _, x := range sc.Extras {
 			kind := map[string]string{"dupok": "ok", "latefail": "latefail", "latemalformed": "latemalformed"}[x]
 			if !mc.Closed() {
+				lg.add(cnEvent{Ev: "peer", K: peerKind(kind)})
 				mc.Feed(ceaFor(kind, &msgs[0]))
 				mc.WaitReaderBlocked(300 * time.Millisecond)
 			}
 		}
 		if !mc.Closed() {
+			lg.add(cnEvent{Ev: "app"})
 			mc.Feed(appMsg(272, 4, false, 4242))
 		}
 		select {
@@ -326,10 +342,12 @@ func runHandshake(id int, sc *hsScript, configured bool) hsLine {
 	if !mc.Closed() {
 		mc.Close()
 	}
+	l.Events = lg.snapshot()
 	return l
 }
 
 func Handshake(a Args) error {
+	installSMHook()
 	out, err := NewOut(a.Out)
 	if err != nil {
 		return err
